@@ -255,7 +255,12 @@ def cmd_check(a):
         "pythonhashseeds": hashseeds,
         "group_environments": [group_env(g, ngroups) for g in range(ngroups)],
         "workers": workers,
-        "real_vs_stub": prop.REAL_VS_STUB,
+        "real_vs_stub": {"real": list(prop.REAL_VS_STUB.get("real", [])),
+                         "stub": list(prop.REAL_VS_STUB.get("stub", [])) + [
+                             "directory listings under the simulated root (glob / listdir / scandir: permuted)",
+                             "file clock (in half of the runs every file written under the simulated root keeps one mtime)",
+                             "interpreter environment per worker group (plain, EPSILON=0, python -O, explicit defaults)",
+                             "application logging configuration (disabled / DEBUG with a NullHandler)"]},
         "repo_head": repo_head(), "repo_dirty": repo_dirty(),
         "known_findings_hit": [l for l in lines if l.startswith("KNOWN-FINDING")],
         "harness_errors": len(agg["harness_errors"]), "worker_timeouts": agg["timeouts"],
